@@ -18,11 +18,12 @@ def BraceSim (t : Ty) (c : Init) (inner : List ITok) (c' : Init) (rest : List IT
 
 /-- `{ … }` for the subobject at `p` (p19: the whole subobject; the parser re-uses the node, which is zero if untouched) -/
 theorem init2_brace {root : Ty} {top : Bool} {obj : Init} {p : List Nat} {t : Ty} {c : Init} {inner : List ITok} {c' : Init}
-    {rest : List ITok} (hA : At root top obj p t c) (hb : hasExpr c = false → BraceSim t c inner c' rest) :
+    {rest : List ITok} (hA : At root top obj p t c) (hbl : bracedLit t inner = none)
+    (hb : hasExpr c = false → BraceSim t c inner c' rest) :
     ∀ g fl, ∃ g', Imp (initItem g root top obj [p] (.lbrace :: inner) fl) (After root top obj p c' rest fl g') := by
   intro g fl
   refine ⟨g, fun res hres hcl => ?_⟩
-  rw [initItem_brace _ _ _ _ _ _ _ hA.sub hA.ng] at hres
+  rw [initItem_brace _ _ _ _ _ _ _ hA.sub hA.ng hbl] at hres
   obtain ⟨sub, hsub, hres⟩ := bind_eq_ok hres
   obtain ⟨obj', hmod, hfin⟩ := bind_eq_ok hres
   have hfl := initList_clean _ _ _ _ _ _ _ _ _ hfin hcl
@@ -104,12 +105,13 @@ theorem desigPaths_scalar (sz : Nat) (k : SKind) (top : Bool) (d : Nat) (toks : 
 
 /-- a brace-enclosed initializer for an object of type `t`: `initializer2` with the node `c` against the list of the specification -/
 theorem braceSim_step {f : Nat} (ih : Sim f) {t : Ty} {c : Init} {inner : List ITok} {c' : Init} {rest : List ITok}
-    (ho : subOk t = true) (hs : shaped t c = true) (h : initializer2 (f+1) t (.lbrace :: inner) c = .ok (c', rest)) :
+    (ho : subOk t = true) (hs : shaped t c = true) (hbl : bracedLit t inner = none)
+    (h : initializer2 (f+1) t (.lbrace :: inner) c = .ok (c', rest)) :
     shaped t c' = true ∧ (hasExpr c = false → BraceSim t c inner c' rest) := by
   cases t with
   | inc => simp [subOk] at ho
   | array elem len =>
-    rw [initializer2] at h
+    rw [initializer2_array_brace_none _ (bracedStr_none_of_bracedLit rfl hbl)] at h
     obtain ⟨hs', inner', heq, himp⟩ := ih.arr1 ho hs h
     cases heq
     refine ⟨hs', fun _ top g fl res hres hcl => ?_⟩
@@ -349,7 +351,8 @@ theorem switchesUnion_marked : ∀ (p : List Nat) (obj c X : Init) (j : Nat), ge
       exact ih
 
 theorem initItem_brace_multi (g : Nat) (root : Ty) (top : Bool) (obj : Init) (p0 : List Nat) (rest : List (List Nat))
-    (inner : List ITok) (fl : Flags) {t : Ty} (ht : subTy root p0 = some t) (hg : growable root top p0 = false) :
+    (inner : List ITok) (fl : Flags) {t : Ty} (ht : subTy root p0 = some t) (hg : growable root top p0 = false)
+    (hbl : bracedLit t inner = none) :
     initItem g root top obj (p0 :: rest) (.lbrace :: inner) fl =
       (initList g t false (braceStart t) (firstCursor t) inner true Flags.none >>= fun sub =>
         (p0 :: rest).foldlM (fun o p => modifyAt root top (fun _ _ => pure (defaultMember t (unflex sub.obj))) root [] p o) obj
@@ -358,7 +361,7 @@ theorem initItem_brace_multi (g : Nat) (root : Ty) (top : Bool) (obj : Init) (p0
             ((fl.join ⟨(p0 :: rest).any (touched obj), (p0 :: rest).any (exprAbove obj),
                 decide ((p0 :: rest).length > 1) && !siblings (p0 :: rest), false⟩).join sub.fl)) := by
   unfold initItem initItemWith
-  simp only [ht, hg, Bool.false_eq_true, ↓reduceIte, pure_bind']
+  simp only [ht, hg, Bool.false_eq_true, ↓reduceIte, pure_bind', hbl]
 
 /-- `touched`, except for scalars (a string literal replaces an array as a whole) -/
 def nonScalarTouched (root : Ty) (obj : Init) (p : List Nat) : Bool :=
@@ -375,7 +378,7 @@ theorem initItem_tok_multi (g : Nat) (root : Ty) (top : Bool) (obj : Init) (p0 :
             (fl.join ⟨(isStrTok tok && targets.any (nonScalarTouched root obj))
                 || targets.any (switchesUnion obj), targets.any (exprAbove obj),
               decide ((p0 :: rest).length > 1) && !(siblings (p0 :: rest) && targets == (p0 :: rest)), false⟩)) := by
-  unfold initItem initItemWith
+  unfold initItem initItemWith initTokWith
   cases tok <;> first | exact absurd rfl hb | rfl
 
 /-- the parser's loop over the elements of a range and the specification's fold over the designated paths, in lockstep:
@@ -515,117 +518,136 @@ theorem range_core {f : Nat} (ih : Sim f) {root : Ty} {top : Bool} {obj : Init} 
     have hlast' : next root top ((List.range' b (m+1)).map (fun k => p ++ [k])).getLast!.reverse = cur' := by
       rw [getLast!_range_map p b (m+1) (by omega)]
       exact hlast
+    have nobrace : ∀ (tok0 : ITok) (r : List ITok), tok0 ≠ .lbrace →
+        (∀ c v t, designation f elem tok c = .ok (v, t) →
+          ∃ f', f = f' + 1 ∧ initializer2 f' elem (tok0 :: r) c = .ok (v, t)) →
+        initItem g root top obj ((List.range' b (m+1)).map (fun k => p ++ [k])) (tok0 :: r) fl = .ok res →
+        ∃ objF, initList g root top objF cur' tok2 false fl = .ok res ∧ Post objF := by
+      intro tok0 r hb hitem hres
+      rw [hpaths, initItem_tok_multi _ _ _ _ _ _ _ _ _ hb, ← hpaths] at hres
+      obtain ⟨targets, htg, hres⟩ := bind_eq_ok hres
+      obtain ⟨obj', hmod, hfin⟩ := bind_eq_ok hres
+      have hfl := initList_clean _ _ _ _ _ _ _ _ _ hfin hcl
+      obtain ⟨_, hfl2⟩ := Flags.clean_join hfl
+      obtain ⟨hov, hxa, hwd⟩ := Flags.clean_mk hfl2
+      cases hst : stopsAt elem tok0 with
+      | false =>
+        -- brace elision into the elements: region WideRange
+        exfalso
+        rw [hpaths] at htg
+        obtain ⟨q0, ts, hq0, _, rfl⟩ := mapM_cons_ok htg
+        obtain ⟨k, s', hqs⟩ := descend_below (hsub b hb0) hst hq0
+        have hne : ((q0 :: ts) == (p ++ [b]) :: (List.range' (b+1) m).map (fun k => p ++ [k])) = false := by
+          rw [hqs]
+          simp only [beq_eq_false_iff_ne, ne_eq, List.cons.injEq, not_and]
+          intro h; exfalso
+          have := congrArg List.length h
+          simp at this
+        rw [hpaths, hne] at hwd
+        have : 0 < m := by omega
+        simp [this] at hwd
+      | true =>
+        have htg' : targets = (List.range' b (m+1)).map (fun k => p ++ [k]) := by
+          rw [mapM_stop hst root.nodes _ hsubq] at htg
+          cases htg; rfl
+        subst htg'
+        simp only [Bool.or_eq_false_iff] at hov
+        obtain ⟨hstr, hsw⟩ := hov
+        have hswj : ∀ j ∈ List.range' b (m+1), switchesUnion obj (p ++ [j]) = false := by
+          intro j hj
+          have := List.any_eq_false.mp hsw (p ++ [j]) (List.mem_map_of_mem hj)
+          simpa using this
+        obtain ⟨objF, h2, h3, hpost⟩ := hF (fun P => storeTok root top tok0 P) r
+          (fun j hj c v t hc hd => by
+            obtain ⟨f', hf', hi2⟩ := hitem c v t hd
+            obtain ⟨e1, hsv, hsto⟩ := init2_whole_tok hoe (hshc j hj c hc) hb hst hi2
+            refine ⟨hsto root top (p ++ [j]) (hgr j hj) (fun his hns => ?_), e1, hsv⟩
+            have htj : touched obj (p ++ [j]) = false := by
+              rw [his, Bool.true_and] at hstr
+              have := List.any_eq_false.mp hstr (p ++ [j]) (List.mem_map_of_mem hj)
+              simp only [nonScalarTouched] at this
+              rw [hsub j hj] at this
+              cases elem with
+              | scalar sz k => exact absurd rfl (hns sz k)
+              | array => simpa using this
+              | inc => simpa using this
+              | struct => simpa using this
+              | union => simpa using this
+            exact hpr j hj c hc htj)
+          hswj
+        rw [h2] at hmod
+        cases hmod
+        have hfl0 : (⟨(isStrTok tok0 && ((List.range' b (m+1)).map (fun k => p ++ [k])).any (nonScalarTouched root obj))
+              || ((List.range' b (m+1)).map (fun k => p ++ [k])).any (switchesUnion obj),
+            ((List.range' b (m+1)).map (fun k => p ++ [k])).any (exprAbove obj),
+            decide (((List.range' b (m+1)).map (fun k => p ++ [k])).length > 1) &&
+              !(siblings ((List.range' b (m+1)).map (fun k => p ++ [k])) &&
+                ((List.range' b (m+1)).map (fun k => p ++ [k])) == ((List.range' b (m+1)).map (fun k => p ++ [k]))), false⟩ : Flags)
+            = ⟨false, false, false, false⟩ := by
+          rw [hstr, hsw, hxa, hwd]; rfl
+        rw [hlast', hfl0, Flags.join_false] at hfin
+        rw [h3]
+        exact ⟨obj', hfin, hpost⟩
     cases hit : itemOf tok with
     | nil =>
       rw [hit, hpaths] at hres
-      unfold initItem initItemWith at hres
+      unfold initItem initItemWith initTokWith at hres
       cases hres
     | cons tok0 r =>
       rw [hit] at hres
       by_cases hb : tok0 = .lbrace
       · -- braces
         subst hb
-        rw [hpaths, initItem_brace_multi _ _ _ _ _ _ _ _ (hsub b hb0) (hgr b hb0), ← hpaths] at hres
-        obtain ⟨sub, hsb, hres⟩ := bind_eq_ok hres
-        obtain ⟨obj', hmod, hfin⟩ := bind_eq_ok hres
-        have hfl := initList_clean _ _ _ _ _ _ _ _ _ hfin hcl
-        obtain ⟨hfl1, hsubcl⟩ := Flags.clean_join hfl
-        obtain ⟨_, hfl2⟩ := Flags.clean_join hfl1
-        obtain ⟨htch, hxa, hwd⟩ := Flags.clean_mk hfl2
-        have hnt : ∀ j ∈ List.range' b (m+1), touched obj (p ++ [j]) = false := by
-          intro j hj
-          have := List.any_eq_false.mp htch (p ++ [j]) (List.mem_map_of_mem hj)
-          simpa using this
-        have hbrace : ∀ j ∈ List.range' b (m+1), ∀ c v t, cs[j]? = some c → designation f elem tok c = .ok (v, t) →
-            defaultMember elem (unflex sub.obj) = v ∧ sub.rest = t ∧ sub.fl = Flags.none ∧ shaped elem v = true := by
-          intro j hj c v t hc hd
-          obtain ⟨f', hf', hi2⟩ := hitem c v t hd
-          rw [hit] at hi2
-          have hup := init2_fuel_lift (g := f+1) (by omega) hi2
-          obtain ⟨hsv, hbs⟩ := braceSim_step ih hoe (hshc j hj c hc) hup
-          have hne := hpr j hj c hc (hnt j hj)
-          have hz := zero_of_shaped elem c hoe (hshc j hj c hc) hne
-          have hzero : braceStart elem = c := by rw [hz]; rfl
-          rw [hzero] at hsb
-          obtain ⟨e1, e2, e3⟩ := hbs hne false g Flags.none sub hsb hsubcl
-          exact ⟨e1, e2, e3, hsv⟩
-        obtain ⟨objF, h2, h3, hpost⟩ := hF (fun _ _ _ => pure (defaultMember elem (unflex sub.obj))) sub.rest
-          (fun j hj c v t hc hd => by
-            obtain ⟨e1, e2, _, hsv⟩ := hbrace j hj c v t hc hd
-            exact ⟨by rw [e1]; rfl, e2.symm, hsv⟩)
-          (fun j hj => hsw' j hj (hnt j hj))
-        rw [h2] at hmod
-        cases hmod
-        have hsfl : sub.fl = Flags.none := (hbrace b hb0 c0 v0 t0 hk0 hd0).2.2.1
-        rw [hlast', htch, hxa, hwd, hsfl, Flags.join_false, Flags.join_none] at hfin
-        rw [h3]
-        exact ⟨obj', hfin, hpost⟩
-      · -- an initializer without braces
-        rw [hpaths, initItem_tok_multi _ _ _ _ _ _ _ _ _ hb, ← hpaths] at hres
-        obtain ⟨targets, htg, hres⟩ := bind_eq_ok hres
-        obtain ⟨obj', hmod, hfin⟩ := bind_eq_ok hres
-        have hfl := initList_clean _ _ _ _ _ _ _ _ _ hfin hcl
-        obtain ⟨_, hfl2⟩ := Flags.clean_join hfl
-        obtain ⟨hov, hxa, hwd⟩ := Flags.clean_mk hfl2
-        cases hst : stopsAt elem tok0 with
-        | false =>
-          -- brace elision into the elements: region WideRange
-          exfalso
-          rw [hpaths] at htg
-          obtain ⟨q0, ts, hq0, _, rfl⟩ := mapM_cons_ok htg
-          obtain ⟨k, s', hqs⟩ := descend_below (hsub b hb0) hst hq0
-          have hne : ((q0 :: ts) == (p ++ [b]) :: (List.range' (b+1) m).map (fun k => p ++ [k])) = false := by
-            rw [hqs]
-            simp only [beq_eq_false_iff_ne, ne_eq, List.cons.injEq, not_and]
-            intro h; exfalso
-            have := congrArg List.length h
-            simp at this
-          rw [hpaths, hne] at hwd
-          have : 0 < m := by omega
-          simp [this] at hwd
-        | true =>
-          have htg' : targets = (List.range' b (m+1)).map (fun k => p ++ [k]) := by
-            rw [mapM_stop hst root.nodes _ hsubq] at htg
-            cases htg; rfl
-          subst htg'
-          simp only [Bool.or_eq_false_iff] at hov
-          obtain ⟨hstr, hsw⟩ := hov
-          have hswj : ∀ j ∈ List.range' b (m+1), switchesUnion obj (p ++ [j]) = false := by
+        cases hbl : bracedLit elem r with
+        | some tr =>
+          -- p14/p15: a string literal in braces for a character array: the literal alone
+          obtain ⟨tok1, r1⟩ := tr
+          rw [hpaths, initItem_bracedLit _ _ _ _ _ _ _ _ (hsub b hb0) (hgr b hb0) hbl, ← hpaths] at hres
+          exact nobrace tok1 r1 (bracedLit_stops hbl).2 (fun c v t hd => by
+            obtain ⟨f', hf', hi2⟩ := hitem c v t hd
+            rw [hit, init2_bracedLit_eq c hbl] at hi2
+            exact ⟨f', hf', hi2⟩) hres
+        | none =>
+          rw [hpaths, initItem_brace_multi _ _ _ _ _ _ _ _ (hsub b hb0) (hgr b hb0) hbl, ← hpaths] at hres
+          obtain ⟨sub, hsb, hres⟩ := bind_eq_ok hres
+          obtain ⟨obj', hmod, hfin⟩ := bind_eq_ok hres
+          have hfl := initList_clean _ _ _ _ _ _ _ _ _ hfin hcl
+          obtain ⟨hfl1, hsubcl⟩ := Flags.clean_join hfl
+          obtain ⟨_, hfl2⟩ := Flags.clean_join hfl1
+          obtain ⟨htch, hxa, hwd⟩ := Flags.clean_mk hfl2
+          have hnt : ∀ j ∈ List.range' b (m+1), touched obj (p ++ [j]) = false := by
             intro j hj
-            have := List.any_eq_false.mp hsw (p ++ [j]) (List.mem_map_of_mem hj)
+            have := List.any_eq_false.mp htch (p ++ [j]) (List.mem_map_of_mem hj)
             simpa using this
-          obtain ⟨objF, h2, h3, hpost⟩ := hF (fun P => storeTok root top tok0 P) r
+          have hbrace : ∀ j ∈ List.range' b (m+1), ∀ c v t, cs[j]? = some c → designation f elem tok c = .ok (v, t) →
+              defaultMember elem (unflex sub.obj) = v ∧ sub.rest = t ∧ sub.fl = Flags.none ∧ shaped elem v = true := by
+            intro j hj c v t hc hd
+            obtain ⟨f', hf', hi2⟩ := hitem c v t hd
+            rw [hit] at hi2
+            have hup := init2_fuel_lift (g := f+1) (by omega) hi2
+            obtain ⟨hsv, hbs⟩ := braceSim_step ih hoe (hshc j hj c hc) hbl hup
+            have hne := hpr j hj c hc (hnt j hj)
+            have hz := zero_of_shaped elem c hoe (hshc j hj c hc) hne
+            have hzero : braceStart elem = c := by rw [hz]; rfl
+            rw [hzero] at hsb
+            obtain ⟨e1, e2, e3⟩ := hbs hne false g Flags.none sub hsb hsubcl
+            exact ⟨e1, e2, e3, hsv⟩
+          obtain ⟨objF, h2, h3, hpost⟩ := hF (fun _ _ _ => pure (defaultMember elem (unflex sub.obj))) sub.rest
             (fun j hj c v t hc hd => by
-              obtain ⟨f', hf', hi2⟩ := hitem c v t hd
-              rw [hit] at hi2
-              obtain ⟨e1, hsv, hsto⟩ := init2_whole_tok hoe (hshc j hj c hc) hb hst hi2
-              refine ⟨hsto root top (p ++ [j]) (hgr j hj) (fun his hns => ?_), e1, hsv⟩
-              have htj : touched obj (p ++ [j]) = false := by
-                rw [his, Bool.true_and] at hstr
-                have := List.any_eq_false.mp hstr (p ++ [j]) (List.mem_map_of_mem hj)
-                simp only [nonScalarTouched] at this
-                rw [hsub j hj] at this
-                cases elem with
-                | scalar sz k => exact absurd rfl (hns sz k)
-                | array => simpa using this
-                | inc => simpa using this
-                | struct => simpa using this
-                | union => simpa using this
-              exact hpr j hj c hc htj)
-            hswj
+              obtain ⟨e1, e2, _, hsv⟩ := hbrace j hj c v t hc hd
+              exact ⟨by rw [e1]; rfl, e2.symm, hsv⟩)
+            (fun j hj => hsw' j hj (hnt j hj))
           rw [h2] at hmod
           cases hmod
-          have hfl0 : (⟨(isStrTok tok0 && ((List.range' b (m+1)).map (fun k => p ++ [k])).any (nonScalarTouched root obj))
-                || ((List.range' b (m+1)).map (fun k => p ++ [k])).any (switchesUnion obj),
-              ((List.range' b (m+1)).map (fun k => p ++ [k])).any (exprAbove obj),
-              decide (((List.range' b (m+1)).map (fun k => p ++ [k])).length > 1) &&
-                !(siblings ((List.range' b (m+1)).map (fun k => p ++ [k])) &&
-                  ((List.range' b (m+1)).map (fun k => p ++ [k])) == ((List.range' b (m+1)).map (fun k => p ++ [k]))), false⟩ : Flags)
-              = ⟨false, false, false, false⟩ := by
-            rw [hstr, hsw, hxa, hwd]; rfl
-          rw [hlast', hfl0, Flags.join_false] at hfin
+          have hsfl : sub.fl = Flags.none := (hbrace b hb0 c0 v0 t0 hk0 hd0).2.2.1
+          rw [hlast', htch, hxa, hwd, hsfl, Flags.join_false, Flags.join_none] at hfin
           rw [h3]
           exact ⟨obj', hfin, hpost⟩
+      · -- an initializer without braces
+        exact nobrace tok0 r hb (fun c v t hd => by
+          obtain ⟨f', hf', hi2⟩ := hitem c v t hd
+          rw [hit] at hi2
+          exact ⟨f', hf', hi2⟩) hres
 
 /-- `range_core` for an array of known length inside any object -/
 theorem range_whole {f : Nat} (ih : Sim f) {root : Ty} {top : Bool} {obj : Init} {p : List Nat} {elem : Ty} {len : Nat}
